@@ -294,10 +294,16 @@ def uncertainty_tokenizer(input_string: str) -> Generator[TokenInfo, None, None]
                 line=line,
             )
             std_dev = next(toklist)
-            if "." not in std_dev.string:
+            if std_dev.string.isdigit() and "e" not in nominal_value.string.lower():
+                # The digits in parentheses apply to the last digits of the
+                # nominal value: 8.00(4) is 8.00 +/- 0.04 and 123(45) is 123 +/- 45.
+                decimals = len(nominal_value.string.partition(".")[2])
+                digits = std_dev.string.zfill(decimals + 1)
+                if decimals:
+                    digits = digits[:-decimals] + "." + digits[-decimals:]
                 std_dev = tokenize.TokenInfo(
                     type=std_dev.type,
-                    string="0." + std_dev.string,
+                    string=digits,
                     start=std_dev.start,
                     end=std_dev.end,
                     line=line,
